@@ -24,11 +24,21 @@
           fancy_value_clause   the value of an integer-list key is 0-d or has exactly the lists' length
           (boolean-mask keys are outside the domain altogether: the code rejects them)
    and reads to [read_dom sh] = nonempty_key / fancy_in_range / no mask.
+   Keys may also be general basic indices with Ellipsis (KIndex: the model runs agent c02b's whole
+   normalize_index, Model/CooIndex.v, linked to NumPy's expansion/resolution by normalize_link);
+   clauses for them: index_no_newaxis (a None in an ASSIGNMENT key is rejected by _setitem; the
+   property itself says "newaxis-free"), index_no_arrays (index arrays inside a basic key: outside
+   the key grammar), index_no_zero_step, index_value_ndim_clause.
+   EXTENSION (elements Z): histories of raw values cast to an integer / boolean dtype mixed with
+   asformat("coo") / from_coo round trips (hrun / np_hrun, Model/DOKExt.v), and reads through the
+   real __getitem__ path (DokGetitem.dok_getitem: COO.from_iter, the COO mask kernels for every
+   cut-over schedule kf, DOK.from_coo), stated on top of C02's dok_getitem_den_partial.
    There is NO clause about slices: every start/stop/step (any sign, any size, None) is inside
    the domain — the former defects D1, D4 and the double normalisation of reads were repaired in
    /repo (f6512bb, 97946a9) and the theorems below are proved for the code as it is now. *)
 From Coq Require Import ZArith List Bool.
-From Verif Require Import Py PyExt G_slicing G_dok PySlice Shape Slicing COO NpAssign DOK DOKP.
+From Verif Require Import Py PyExt G_slicing G_dok PySlice Shape Slicing COO NpIndex CooIndex CooIndexNormP
+     Convert DokGetitem DokGetitemP NpAssign DOK DOKP DOKExt DOKExtP.
 Import ListNotations.
 Open Scope Z_scope.
 
@@ -137,3 +147,81 @@ Theorem dok_empty_key_refuted :
     abs fill (step Z.eqb sh fill [] op) ix <> np_assign sh (np_full fill) op ix.
 Proof. exact dok_empty_key_refuted_proof. Qed.
 Print Assumptions dok_empty_key_refuted.
+
+(* ==================================================================== extension (elements: Z) *)
+
+(* refinement for histories of RAW values (Python ints and floats, NumPy integer scalars, integer
+   and float arrays) assigned into a DOK of an integer / boolean dtype, mixed with
+   d = DOK.from_coo(d.asformat("coo")) round trips *)
+Theorem dok_refines_dense_ext_partial :
+  forall (dt : dtype) (sh : shape) (fill : Z) (ops : list hop),
+    shape_ok sh -> dtype_ok dt = true -> forallb (hop_dom dt sh) ops = true ->
+    forall ix, abs fill (hrun dt sh fill ops) ix = np_hrun dt sh fill ops ix.
+Proof. exact dok_refines_dense_ext_proof. Qed.
+Print Assumptions dok_refines_dense_ext_partial.
+
+Theorem dok_nnz_ext_partial :
+  forall (dt : dtype) (sh : shape) (fill : Z) (ops : list hop),
+    shape_ok sh -> dtype_ok dt = true -> forallb (hop_dom dt sh) ops = true ->
+    nnz (hrun dt sh fill ops) = np_count_nonfill Z.eqb sh (np_hrun dt sh fill ops) fill.
+Proof. exact dok_nnz_ext_proof. Qed.
+Print Assumptions dok_nnz_ext_partial.
+
+(* asformat("coo") followed by DOK.from_coo gives back the very same dict *)
+Theorem dok_roundtrip_state :
+  forall (dt : dtype) (sh : shape) (fill : Z) (ops : list hop),
+    shape_ok sh -> sh <> [] -> dtype_ok dt = true -> forallb (hop_dom dt sh) ops = true ->
+    roundtrip sh fill (hrun dt sh fill ops) = hrun dt sh fill ops.
+Proof. exact dok_roundtrip_state_proof. Qed.
+Print Assumptions dok_roundtrip_state.
+
+(* dok_read_spec through the real path: for every key that is not made of index sequences only —
+   integers, slices, Ellipsis, None, one index array or several (C02's coo_ix_ok) — and every
+   cut-over schedule kf of the mask kernels, d[ix] after an in-domain history is NumPy's x[ix] *)
+Theorem dok_real_read_partial :
+  forall (kf : nat -> nat) (dt : dtype) (sh : shape) (fill : Z) (ops : list hop) (ix : index),
+    shape_ok sh -> sh <> [] -> dtype_ok dt = true -> forallb (hop_dom dt sh) ops = true ->
+    no_zero_step ix = true -> coo_ix_ok sh ix -> all_arrays_of ix = None ->
+    match np_index sh ix with
+    | Raise e => real_getitem kf sh fill (hrun dt sh fill ops) ix = Raise e /\ e = IndexError
+    | Ok (sh', g) =>
+      match real_getitem kf sh fill (hrun dt sh fill ops) ix with
+      | Ok (DArr sh'' it' f') =>
+        sh'' = sh' /\ f' = fill /\ NoDup (map fst it') /\ Forall (in_range sh') (map fst it')
+        /\ forall j, in_range sh' j -> den (dok_as_coo sh'' it' f') j = np_hrun dt sh fill ops (g j)
+      | Ok (DScalar v) => sh' = [] /\ v = np_hrun dt sh fill ops (g [])
+      | Raise _ => False
+      end
+    end.
+Proof. exact dok_real_read_after_proof. Qed.
+Print Assumptions dok_real_read_partial.
+
+(* ... and for keys made of one in-range integer sequence per axis (_fancy_getitem) *)
+Theorem dok_real_fancy_read_partial :
+  forall (kf : nat -> nat) (dt : dtype) (sh : shape) (fill : Z) (ops : list hop)
+         (ls : list (list Z)) (n : nat),
+    shape_ok sh -> sh <> [] -> dtype_ok dt = true -> forallb (hop_dom dt sh) ops = true ->
+    fancy_ok sh ls n ->
+    exists g it',
+      np_index sh (map IArr ls) = Ok ([Z.of_nat n], g)
+      /\ real_getitem kf sh fill (hrun dt sh fill ops) (map IArr ls) = Ok (DArr [Z.of_nat n] it' fill)
+      /\ forall j, in_range [Z.of_nat n] j ->
+           den (dok_as_coo [Z.of_nat n] it' fill) j = np_hrun dt sh fill ops (g j).
+Proof. exact dok_real_fancy_read_after_proof. Qed.
+Print Assumptions dok_real_fancy_read_partial.
+
+(* d[None, 0] = 5 raises IndexError; NumPy assigns x[0] (the property's keys are newaxis-free) *)
+Theorem dok_newaxis_refuted :
+  exists (sh : shape) (fill : Z) (op : key * arr Z) (ix : idx),
+    shape_ok sh /\ op_valid sh op = true /\
+    abs fill (step Z.eqb sh fill [] op) ix <> np_assign sh (np_full fill) op ix.
+Proof. exact dok_newaxis_refuted_proof. Qed.
+Print Assumptions dok_newaxis_refuted.
+
+(* d = DOK((3,), dtype=int8); d[0] = np.int64(300) stores 44; NumPy raises OverflowError *)
+Theorem dok_npint_refuted :
+  exists (dt : dtype) (sh : shape) (fill : Z) (o : hop) (ix : idx),
+    shape_ok sh /\ dtype_ok dt = true /\
+    abs fill (hstep dt sh fill [] o) ix <> np_hstep dt sh (np_full fill) o ix.
+Proof. exact dok_npint_refuted_proof. Qed.
+Print Assumptions dok_npint_refuted.
